@@ -465,7 +465,7 @@ sprDone:
 			m.Seen[en.Hash] = true
 			if tb.HasConversions() {
 				m.Pending = append(m.Pending, Held{Height: h, Entry: en, Batch: tb})
-				x.Outcomes = append(x.Outcomes, BatchOutcome{Hash: en.Hash, Code: 0, Held: true, Txs: len(tb.Transactions), HasConv: true, ToAmount: make([]int64, len(tb.Transactions))})
+				x.Outcomes = append(x.Outcomes, BatchOutcome{Hash: en.Hash, Code: 0, Held: true, Txs: len(tb.Transactions), HasConv: true, ToAmount: make([]int64, len(tb.Transactions)), Addr: tb.Transactions[0].Input.Address})
 				continue
 			}
 			m.applyBatch(x, B, tb, en, nil, nil, h, false)
@@ -537,7 +537,7 @@ func time60(blockUnix int64, minute int) time.Time {
 // applyBatch mirrors the two-pass funds check and the application of a batch.
 func (m *Model) applyBatch(x *Expected, B Bal, tb *fat2.TransactionBatch, en forge.Entry, rates, avgs map[fat2.PTicker]uint64, h uint32, fromHolding bool) BatchOutcome {
 	e := m.E
-	out := BatchOutcome{Hash: en.Hash, Txs: len(tb.Transactions), HasConv: tb.HasConversions(), ToAmount: make([]int64, len(tb.Transactions))}
+	out := BatchOutcome{Hash: en.Hash, Txs: len(tb.Transactions), HasConv: tb.HasConversions(), ToAmount: make([]int64, len(tb.Transactions)), Addr: tb.Transactions[0].Input.Address}
 	pip10 := h >= e.PIP10
 	finish := func() BatchOutcome {
 		x.Outcomes = append(x.Outcomes, out)
